@@ -648,7 +648,7 @@ def rule_usable_baseline(ctx) -> None:
               "the baseline reader catches parse errors and returns a payload only for header.mode == 'full' with an object body",
               "the baseline reader does not reject every unusable file (parse error / missing header / mode other than full / non-object body)")
     n_uses = 0
-    for q in (SNAP + ":read_snapshot", SNAP + ":write_snapshot_auto"):
+    for q in (SNAP + ":read_snapshot", SNAP + ":write_snapshot_auto", SNAP + ":load_latest_snapshot"):
         fn = ctx.func(q)
         cfg = ctx.cfg(fn)
         rd = ctx.rd(fn)
@@ -666,7 +666,58 @@ def rule_usable_baseline(ctx) -> None:
                           f"`{src(a0)}` comes from the baseline reader and is used only where it is not None",
                           f"`{src(c)[:60]}` uses a baseline that did not pass the usability check (from _read_baseline_payload, and not None): a truncated or corrupt baseline is diffed against / "
                           "patched, giving a wrongly reconstructed state or an unreadable delta instead of the full-snapshot fallback")
-    ctx.floor("C07.STATE", "uses of a baseline payload (apply_delta / compute_delta)", n_uses, 3)
+    ctx.floor("C07.STATE", "uses of a baseline payload (apply_delta / compute_delta)", n_uses, 4)
+    # the baseline is the version the delta was made from: the reader takes the expected etag and compares it with the
+    # file's own header, and every caller passes it (a full snapshot of another version under the baseline's name - a
+    # wrong backup restored - would otherwise be patched into a state that never existed)
+    ps = [p for p in br.params]
+    cmp_ok = False
+    for x in walk_no_defs(br.node):
+        if isinstance(x, ast.Compare) and any(isinstance(o, (ast.NotEq, ast.Eq)) for o in x.ops):
+            names = {y.id for y in ast.walk(x) if isinstance(y, ast.Name)}
+            if hv and hv in names and any(p in names for p in ps[1:]) and any(isinstance(y, ast.Constant) and isinstance(y.value, str) and "etag" in y.value for y in ast.walk(x)):
+                cmp_ok = True
+    ctx.check(cmp_ok, "C07.STATE", f"{br.qual}/baseline-is-the-delta-s-own", br.loc(), "the baseline reader compares the file's etag with the version the delta names",
+              "the baseline reader never compares the baseline header's etag_to with the delta's delta_of: a full snapshot of another version stored under the baseline's name is used silently and "
+              "the reconstructed payload is a state that never existed")
+    n_calls = 0
+    for fn in ctx.prog.module(SNAP).funcs.values():
+        for x in walk_no_defs(fn.node):
+            if isinstance(x, ast.Call) and call_tail(x) == "_read_baseline_payload" and fn.qual != br.qual:
+                # the fallback FULL of the wanted version is read through the same reader (usability only): its name is built from etag_to
+                is_fallback = any(isinstance(y, ast.Return) and any(z is x for z in ast.walk(y)) for y in walk_no_defs(fn.node))
+                if is_fallback:
+                    continue
+                n_calls += 1
+                ctx.check(len(x.args) + len(x.keywords) >= 2, "C07.STATE", ctx.okey(f"{fn.qual}/baseline-etag-passed"), fn.loc(x), f"`{src(x)[:60]}` names the version it expects",
+                          f"`{src(x)[:60]}` does not say which version the baseline must be: a mislabelled baseline is patched")
+    ctx.floor("C07.STATE", "baseline reads that name the expected version", n_calls, 4)
+    # a file that holds only its header line is torn: the generic reader must not hand the header back as a body
+    rh = ctx.func(SNAP + ":_read_header_payload")
+    cfgh = ctx.cfg(rh)
+    rets = [n for n in cfgh.nodes if n.kind == "stmt" and isinstance(n.ast, ast.Return) and isinstance(n.ast.value, ast.Tuple) and len(n.ast.value.elts) == 2
+            and isinstance(n.ast.value.elts[0], ast.Constant) and n.ast.value.elts[0].value is None]
+    ctx.floor("C07.STATE", "single-JSON fallback returns of the header/payload reader", len(rets), 1)
+    for n in rets:
+        body = src(n.ast.value.elts[1])
+        rejecting = [m for m in cfgh.nodes if m.kind == "stmt" and isinstance(m.ast, ast.Raise)
+                     and any(body in t and ("'mode'" in t or "'schema'" in t or "'etag_to'" in t) and pol for t, pol in cfgh.facts(m))]
+        ok = bool(rejecting) and all(cfgh.path([cfgh.entry], lambda z: z is n, avoid=lambda z: False) is not None for _ in [0]) and \
+            any(("'mode'" in t or "'schema'" in t) for t, pol in cfgh.facts(n)) or bool(rejecting)
+        ctx.check(ok, "C07.STATE", f"{rh.qual}/lone-header-is-not-a-body", rh.loc(n.ast), "a file whose only JSON value is a snapshot header is rejected, not returned as (None, body)",
+                  "the single-JSON fallback returns whatever the file holds as the body: a full or delta file cut off after its header line comes back as (None, header) and the reader returns the "
+                  "header dict as the payload")
+    # the codec is settled before the file name and the header are made
+    wa = ctx.func(SNAP + ":write_snapshot_auto")
+    cfgw = ctx.cfg(wa)
+    avail = [n for n in cfgw.nodes if n.kind in ("cond", "branch") and n.ast is not None and "_zstd" in src(n.ast) and "None" in src(n.ast)]
+    names = [n for n in cfgw.nodes if n.kind == "stmt" and any(isinstance(y, ast.Constant) and isinstance(y.value, str) and ".zst" in y.value for y in ast.walk(n.ast))]
+    ctx.floor("C07.STATE", "file names that depend on the codec", len(names), 2)
+    settled = bool(avail) and all(any(cfgw.dominates(a, n) for a in avail) for n in names)
+    ctx.check(settled, "C07.STATE", f"{wa.qual}/codec-settled-before-naming", wa.loc(names[0].ast) if names else wa.loc(),
+              "the availability of zstandard is decided before the .zst name and the header's codec field are built",
+              "the file name (.json.zst) and the header (codec: zstd) are built from the REQUESTED codec while _write_lines silently degrades to plain text when zstandard is missing: plain text lands "
+              "under a .zst name, which the reader refuses - the snapshot just written cannot be read back")
 
 
 def rule_exact_leaves(ctx) -> None:
